@@ -353,3 +353,11 @@ def masks_no_panic(O):
     from . import C07
     C07.input_mask(O)
     C07.expected_mask(O)
+
+
+@obligation("C10/kani-operators-no-panic", profiles=("dev",),
+            desc="second engine (Kani / CBMC over the compiled code, overflow checks on): no operand pair makes BinOp::eval "
+                 "panic, a zero divisor gives an error result, UnaryOp::eval does not panic")
+def kani_operators_no_panic(O):
+    from . import kani_obs
+    kani_obs.expr_kernels(O, "C10", ["binop_no_panic", "binop_divrem_zero_is_error", "unaryop"])
